@@ -24,7 +24,9 @@ class LockFile:
         except FileExistsError:
             self.fd = os.open(self.filename, os.O_RDWR | os.O_CLOEXEC)
         else:
-            os.write(self.fd, bytes(maximum - minimum))
+            # only extend the file: others may have opened it already
+            # and stored a counter
+            os.ftruncate(self.fd, maximum - minimum)
 
     def close(self):
         os.close(self.fd)
@@ -77,7 +79,9 @@ class ParallelMailboxLock:
                 await sleep(0)
                 continue
             break
-        self.counter, = os.pread(self.lock_file.fd, 1, self.no)
+        # the file may not be initialized yet by the process creating it
+        data = os.pread(self.lock_file.fd, 1, self.no)
+        self.counter = data[0] if data else 0
 
     async def __aexit__(self, a, b, c):
         os.pwrite(self.lock_file.fd, bytes((self.counter,)), self.no)
